@@ -71,6 +71,19 @@ Theorem cache_error_not_stored : forall (D : Type) (s : sys D) sid res s' sid' k
 Proof. exact @error_not_stored. Qed.
 Print Assumptions cache_error_not_stored.
 
+(* The getter may return data TOGETHER with an error (Client.blocks/headers
+   return the rejected blocks when validate fails): such data are dropped --
+   the caller gets the error, the segment stays unfilled, and neither depends
+   on what came with the error.  Together with [cache_read_is_fetch] (served
+   data were returned with err = nil): a rejected reply is never served. *)
+Theorem cache_rejected_data_dropped : forall (D : Type) (c : cache D) sid sg junk,
+  nth_error (c_heap c) sid = Some sg -> sg_data sg = None ->
+  exists c', read_f sid (FErr junk) c = Some (c', None, true)
+    /\ nth_error (c_heap c') sid = Some (mkSeg (sg_key sg) (sg_nreads sg + 1) None)
+    /\ read_f sid (FErr junk) c = read_f sid (FErr None) c.
+Proof. exact @rejected_dropped. Qed.
+Print Assumptions cache_rejected_data_dropped.
+
 Theorem cache_unfilled_asks_again : forall (D : Type) (c : cache D) sid sg res,
   nth_error (c_heap c) sid = Some sg -> sg_data sg = None ->
   exists c', read sid res c = Some (c', res, true)
